@@ -41,6 +41,8 @@ func profile() *vtx.Profile {
 				ev("perm", "c1", 0, "A", "V6"),
 				// another port of an already permitted host: permissions are per IP, so these refresh A's
 				ev("perm", "c1", 0, "A2"), ev("chan", "c1", 0x4001, "A2"),
+				// refreshing the allocation refreshes neither permissions nor channels
+				{K: "refresh", C: "c1", L: -1},
 				ev("chan", "c1", 0x4000, "A"), ev("chan", "c1", 0x4001, "B"),
 				ev("chan", "c1", 0x4000, "B"), ev("chan", "c1", 0x4001, "A"),
 			}
